@@ -39,7 +39,8 @@ def drive(co):
 class FnGen:
     """Generates one function body."""
 
-    def __init__(self, rng, idx, kind, callees, feats):
+    def __init__(self, rng, idx, kind, callees, feats, opts=None):
+        self.opts = opts or {}
         self.rng = rng
         self.idx = idx
         self.kind = kind          # 'plain' | 'gen' | 'rec' | 'coro'
@@ -88,6 +89,24 @@ class FnGen:
 
     def stmt(self, ind, depth, in_loop=False):
         rng = self.rng
+        # options used by C02 only (no PRNG draw when they are off, so other properties' programs are unchanged)
+        if self.opts.get('ticks') and rng.chance(1, 3):
+            self.feats.add('tick')
+            sty = rng.below(3)
+            if sty == 0:
+                self.emit(ind, 'tick(%d)' % (rng.below(50) + 1))
+            elif sty == 1:
+                self.emit(ind, 'a += (tick(%d) or %d)' % (rng.below(500) + 1, rng.below(3)))
+            else:
+                self.feats.add('multiline')
+                self.emit(ind, 'a = (a +')
+                self.emit(ind, '     (tick(%d) or 2) *' % (rng.below(90) + 1))
+                self.emit(ind, '     2)')
+        if self.opts.get('windows') and self.kind in ('plain', 'rec') and depth > 0 and rng.chance(1, 7):
+            self.feats.add('inner-window')
+            self.emit(ind, 'with prof:')
+            self.block(ind + 1, depth - 1, False)
+            return
         r = rng.below(100)
         if depth <= 0:
             r = rng.below(30)
@@ -279,7 +298,7 @@ class FnGen:
         return self.lines
 
 
-def gen_program(rng, nfuncs=None, depth=None, nfiles=None, twins=True, twin_mode=None, ntwins=1):
+def gen_program(rng, nfuncs=None, depth=None, nfiles=None, twins=True, twin_mode=None, ntwins=1, opts=None):
     """Returns the program dict described in the module docstring."""
     nfuncs = nfuncs or (rng.below(5) + 2)
     depth = depth or (rng.below(3) + 1)
@@ -293,7 +312,7 @@ def gen_program(rng, nfuncs=None, depth=None, nfiles=None, twins=True, twin_mode
     for i, kind in enumerate(kinds):
         name = 'f%d' % i
         callees = [(f[0], f[1], f[2]) for f in funcs]
-        g = FnGen(rng.fork('fn%d' % i), i, kind, callees, feats)
+        g = FnGen(rng.fork('fn%d' % i), i, kind, callees, feats, opts)
         lines = g.build(name, depth)
         funcs.append((name, kind, g.may_raise, lines))
     # byte-identical twin: the same source under another name (and possibly another file / line offset)
